@@ -78,6 +78,18 @@ CLAIMED = {
         "contract-based deductive verification: own VC generator over the real source (quantified integer arithmetic), data-structure invariant, callee contracts",
         "DESIGN.md §3 C08",
     ),
+    "C12": (
+        "proof",
+        "For every listing order of the position keys (all permutations of three keys) the column blocks of the tuning matrix are proved to "
+        "follow the flat position's coordinate order (sorted keys = ravel_pytree); _tune_slow of HMC and NUTS feeds only the kernel's own keys, "
+        "picks diag/dense by mm_diag, installs the tuner's result, leaves everything unchanged without history (56 obligations); the regularised "
+        "variance/covariance formulas are pinned structurally and numerically by the bounded stand-in (real _tune_slow on random histories incl. "
+        "matrix-shaped parameters, compared with var/cov of the ravel_pytree-flattened history).",
+        "A-BJX: blackjax flattens the position with ravel_pytree (sorted keys, row-major) - checked natively each run; jnp.var/cov/column_stack "
+        "uninterpreted (the two formula obligations are 'structural': a refutation without native failure is undecided).",
+        "contract-based deductive verification: own VC generator over the real source with uninterpreted library calls, callee contracts",
+        "DESIGN.md §3 C12",
+    ),
 }
 
 NOT_APPLICABLE = {
